@@ -208,6 +208,10 @@ def check_one(p, a, b, seg, label):
 
 
 def oracle(req, impl):
+    # polynomials at the parser's exponent limit (65 537 coefficients): exact evaluation at such degrees is out
+    # of reach of the rational oracle; these requests are decided by the bit-for-bit correspondence alone
+    if len(req) > 20000:
+        return None
     try:
         t = Toks(req)
         text = skip_txt(t)
